@@ -11,7 +11,7 @@ def run(tier, seed):
     build_harness()
     th = tier == "thorough"
     tp = os.path.join(OUT, "traces", "C13-sweep.ndjson")
-    recs, died = vh_records(["iso-sweep", "--seed", seed, "--pairs", 30000 if th else 5000], tp, timeout=1800 if th else 900)
+    recs, died = vh_records(["iso-sweep", "--seed", seed, "--pairs", 120000 if th else 8000], tp, timeout=1800 if th else 900)
     if died:
         g = died["during"]
         run.violation({"kind": "crash", "prop": "C13", "rc": died["rc"], "n": g.get("n"), "n1": g.get("n1"), "dir": g.get("dir")}, [dict(g, crashed=True)], header={"exec": "iso-sweep"})
